@@ -3,6 +3,10 @@
 import json, os
 root = os.path.dirname(os.path.dirname(os.path.abspath(__file__)))
 CHECKS = [
+ dict(id="C18", level="fault_enumeration", engine="inputs (subprocess, ulimit, allocation meter)", design="§5 C18",
+      technique="exhaustive fault enumeration over fixed encodings: every truncation, every single-byte corruption, windowed double-byte corruptions, all short bodies; oracle evaluated on every fault",
+      text="Version-2 and version-1 encodings of 7 programs (every constant kind, closures, try tables, 2-file file set, source + builtin modules) and object-level encodings of 18 value kinds (incl. gob-fallback values) are subjected to every truncation, every single-byte corruption (255 values per position), double-byte corruptions in a window and every body of <= 2 (thorough 3) bytes behind both headers, through DecodeBytecodeFrom, Bytecode.UnmarshalBinary, DecodeObject and the type's own UnmarshalBinary. No panic, no fatal error, no hang, allocation <= 256 KiB + 512 x len(input).",
+      note="quick uses 22 corruption values for encodings > 700 bytes and skips their double-byte faults (thorough does all). A decoded value, if any, is not run. Known finding KF-C18-1 (encoding/gob's own 10 MiB chunk)."),
  dict(id="C11", level="exploration", engine="gen + v1 down-converter", design="§5 C11",
       technique="bounded exhaustive program enumeration, differential execution of the version-1 encoding (produced by a harness down-converter that is validated by an independent up-converter on every program) against the original bytecode",
       text="Every program of the C03 space (cores <= 2 nodes, thorough 3), of the C02 families and of a dedicated jump grammar (if/else, loops, &&, ||, ?:, try; x 4 inputs) is compiled, converted to version 1, encoded under a version-1 header, decoded by the implementation and run; value, probe log, error name+message and stack-trace lines must equal the original's.",
